@@ -79,6 +79,12 @@ StrSchemas == UNION {Pick2({Lit(StrD(e), rs) : e \in {x \in StrExamples : Obeys(
 FmtSchemas == {Lit(StrD(FormatExample(rs[1].v.s)), rs) : rs \in FormatRuleSets}
 EnumSchemas == UNION {{Lit(l[i].v, <<R("enum", [t |-> "list", items |-> l])>> \o n) : i \in DOMAIN l, n \in NullableOpts} : l \in EnumLists}
 ConstSchemas == {Lit(v, rs) : v \in {NumD(N1), NumD(N1_5), StrD(Sa), BoolD(TRUE), Null, NumD(N1_0)}, rs \in ConstSets}
-Schemas == NumSchemas \cup DecSchemas \cup StrSchemas \cup FmtSchemas \cup EnumSchemas \cup ConstSchemas \cup PlainTypes
+\* const together with an enum that lists the example both as itself and as the string of the same spelling (and the reverse):
+\* equality is between JSON values, the kind is part of it
+Confusable == { <<NumD(N1), StrD(S1)>>, <<BoolD(TRUE), StrD(<<116, 114, 117, 101>>)>>, <<Null, StrD(<<110, 117, 108, 108>>)>> }
+CE(x, p) == {Lit(x, <<R("const", BV(TRUE)), R("enum", [t |-> "list", items |-> <<EV(p[1]), EV(p[2])>>])>>),
+             Lit(x, <<R("enum", [t |-> "list", items |-> <<EV(p[2]), EV(p[1])>>]), R("const", BV(TRUE))>>)}
+ConstEnumSchemas == UNION {CE(p[1], p) \cup CE(p[2], p) : p \in Confusable}
+Schemas == ConstEnumSchemas \cup NumSchemas \cup DecSchemas \cup StrSchemas \cup FmtSchemas \cup EnumSchemas \cup ConstSchemas \cup PlainTypes
 
 ===================================================================================
